@@ -201,7 +201,7 @@ def _drive_nearins(sc):
     kind = KINDS[sc["kind"]]
     while True:
         ref = []
-        while len(ref) < 160:                      # reference over {A, C, T} without homopolymer runs
+        while len(ref) < 200:                      # reference over {A, C, T} without homopolymer runs
             b = rng.choice("ACT")
             if not ref or ref[-1] != b:
                 ref.append(b)
@@ -231,8 +231,42 @@ def _drive_nearins(sc):
                     blocks, end = _blocks(pos0, ops)
                     meta[name] = {"segs": [{"rs": pos0, "re": end, "cig": [[OPC[o], m] for o, m in ops], "qlen": len(seq), "blocks": blocks}],
                                   "allele": a, "wa": al[id(Wv)], "so": -dist if side == "left" else 0, "eo": dist if side == "right" else 0}
+    # TAIL reads: the variant is the ONLY typed variant of the read and lies near its end, behind an unrelated deletion or a
+    # reference skip that the read carries (so the reference span is much longer than the number of aligned read bases)
+    treads, tmeta = [], {}
+    for kind_, k in (("D", 24), ("D", 36), ("N", 30), ("N", 60)):
+        for a in (0, 1):
+            for tail in (3, 9):
+                hp = W.Haplotype(ref, [V], [a])
+                q = P - 48
+                s1_, e1_ = hp.ref_to_hap(P - 70 if P >= 70 else 0), hp.ref_to_hap(q)
+                s2_, e2_ = hp.ref_to_hap(q + k if q + k < P - 4 else P - 4), hp.ref_to_hap(P + len(V.ref) + tail)
+                r1, r2 = hp.read(s1_, e1_), hp.read(s2_, e2_)
+                if not r1 or not r2:
+                    continue
+                gap_ = r2[0] - (r1[0] + W.cigar_reflen(r1[1]))
+                if gap_ <= 0:
+                    continue
+                ops = list(r1[1]) + [(kind_, gap_)] + list(r2[1])
+                name = f"t{len(treads):04d}"
+                treads.append({"name": name, "flag": 0, "ref": 0, "pos": r1[0], "cigar": W.cigar_str(ops), "seq": r1[2] + r2[2], "rg": "rg1"})
+                blocks, end = _blocks(r1[0], ops)
+                tmeta[name] = {"segs": [{"rs": r1[0], "re": end, "cig": [[OPC[o], m] for o, m in ops], "qlen": len(r1[2] + r2[2]), "blocks": blocks}],
+                               "allele": a, "so": -48, "eo": tail}
     d = workdir()
     try:
+        if treads:
+            tbam = W.write_bam(os.path.join(d, "t.bam"), [("chr1", len(ref))], treads, [{"ID": "rg1", "SM": "s1"}])
+            only = [BiallelicVcfVariant(V.pos, V.ref, V.alt)]
+            for withref in (True, False):
+                rdr = ReadSetReader([tbam], reference=None, numeric_sample_ids=NumericSampleIds())
+                rs = rdr.read("chr1", only, "s1", ref if withref else None)
+                got = {r.name: {v.position: v.allele for v in r} for r in rs}
+                for name, m in tmeta.items():
+                    vd = {"pos": V.pos, "reflen": len(V.ref), "altlen": len(V.alt), "kind": {"snv": 1, "ins": 2, "del": 3, "mnp": 4}[V.kind],
+                          "truth": m["allele"], "det": int(got.get(name, {}).get(V.pos, -1)), "clean": True, "unshiftable": True}
+                    evs.append({"ev": "Detect", "withref": withref, "segs": m["segs"], "vars": [vd, dict(vd)], "deco": "tail", "so": m["so"],
+                                "eo": m["eo"]})
         bam = W.write_bam(os.path.join(d, "r.bam"), [("chr1", len(ref))], reads, [{"ID": "rg1", "SM": "s1"}])
         variants = [BiallelicVcfVariant(Wv.pos, Wv.ref, Wv.alt), BiallelicVcfVariant(V.pos, V.ref, V.alt)]
         for withref in (True, False):
